@@ -156,7 +156,12 @@ Example C08_builtin_nonvacuous :
   exists insts, In ("Int"%string, insts) builtin_types /\
     map (fun c => decl_lookup (builtin_decl_ids insts) (index_of c builtin_objects)) ["Cmp"; "Len"; "Doc"]%string
     = [Some 2; None; Some 0].
-Proof. eexists. split; [vm_compute; tauto | vm_compute; reflexivity]. Qed.
+Proof.
+  exists (match find (fun t => String.eqb (fst t) "Int"%string) builtin_types with Some x => snd x | None => [] end).
+  split; [|vm_compute; reflexivity].
+  destruct (find (fun t => String.eqb (fst t) "Int"%string) builtin_types) as [[n i]|] eqn:E; [|vm_compute in E; discriminate].
+  apply find_some in E. destruct E as [Hin Hn]. cbn [fst] in Hn. apply String.eqb_eq in Hn. subst n. exact Hin.
+Qed.
 
 (* the reading by class identity needs distinct classes to have distinct names: two class objects that carry one name
    are indistinguishable to Type_Scan (declaration is by name: Instance(I, ...) stores #I) *)
